@@ -24,11 +24,11 @@ import (
 
 // CaseConfig is everything that defines a case besides the PRNG stream.
 type CaseConfig struct {
-	Universe   []string                               // every id that has a key
+	Universe   []string                                // every id that has a key
 	Committees map[uint64][]interfaces.CommitteeMember // per height 1..MaxH+1
-	Byz        map[string]bool                        // Byzantine ids (static)
-	Outsiders  map[string]bool                        // ids with keys that never run a node (adversary owned)
-	MaxH       uint64                                 // heights decided in this case
+	Byz        map[string]bool                         // Byzantine ids (static)
+	Outsiders  map[string]bool                         // ids with keys that never run a node (adversary owned)
+	MaxH       uint64                                  // heights decided in this case
 }
 
 func (c *CaseConfig) Committee(h uint64) []interfaces.CommitteeMember {
@@ -51,14 +51,14 @@ type Flight struct {
 
 // FakeES is the virtual election scheduler of one node.
 type FakeES struct {
-	node   *Node
-	ch     chan *interfaces.ElectionTrigger
-	H, V   uint64
-	cb     func(h primitives.BlockHeight, v primitives.View, cb interfaces.OnElectionCallback)
-	Armed  bool
-	ArmAt  uint64 // virtual time of arming
-	Base   uint64
-	Regs   int
+	node  *Node
+	ch    chan *interfaces.ElectionTrigger
+	H, V  uint64
+	cb    func(h primitives.BlockHeight, v primitives.View, cb interfaces.OnElectionCallback)
+	Armed bool
+	ArmAt uint64 // virtual time of arming
+	Base  uint64
+	Regs  int
 }
 
 func (e *FakeES) RegisterOnElection(h primitives.BlockHeight, v primitives.View, cb func(h primitives.BlockHeight, v primitives.View, cb interfaces.OnElectionCallback)) {
@@ -80,6 +80,7 @@ func (e *FakeES) CalcTimeout(v primitives.View) time.Duration {
 
 // MaxTimerView is the highest view whose virtual timeout (Base*2^view) the virtual clock can represent.
 const MaxTimerView = 55
+
 func (e *FakeES) Stop() {
 	if e.Armed {
 		e.node.w.Log.Add(spi.Event{Node: e.node.Id, Kind: spi.EvStop, H: e.H, V: e.V})
@@ -106,7 +107,7 @@ type Node struct {
 	Store *spi.RecStorage
 	Mem   *spi.Membership
 	// main-loop mimic
-	maxSync    *uint64
+	maxSync *uint64
 	// the worker's two one-slot inboxes (sync, election): filled by the main-loop half of a step, emptied by the worker half
 	pendSync   *pendingSync
 	handSync   *pendingSync // dequeued by the worker, not yet acted upon (the main loop may handle a newer sync meanwhile)
@@ -137,22 +138,22 @@ type StepRec struct {
 }
 
 type World struct {
-	Cfg    *CaseConfig
-	Keys   *spi.Keys
-	Log    *spi.Log
-	Nodes  map[string]*Node
-	Order  []string // correct node ids, sorted
-	Pool   []*Flight
-	Seen   []*Flight // every message ever put on the wire (honest and adversarial)
-	Clock  uint64
-	GST    bool
-	Rng    *rand.Rand
-	Mon    *Monitors
-	Trace  []StepRec
-	emit   uint64
-	comms  map[uint64]*ref.Committee
-	Canon  map[uint64]*CommitRec // first commit seen per height (for sync / prev proofs)
-	KeepTrace bool
+	Cfg          *CaseConfig
+	Keys         *spi.Keys
+	Log          *spi.Log
+	Nodes        map[string]*Node
+	Order        []string // correct node ids, sorted
+	Pool         []*Flight
+	Seen         []*Flight // every message ever put on the wire (honest and adversarial)
+	Clock        uint64
+	GST          bool
+	Rng          *rand.Rand
+	Mon          *Monitors
+	Trace        []StepRec
+	emit         uint64
+	comms        map[uint64]*ref.Committee
+	Canon        map[uint64]*CommitRec // first commit seen per height (for sync / prev proofs)
+	KeepTrace    bool
 	SplitHandoff bool // main-loop and worker halves of syncs / elections may be separated by other steps
 }
 
